@@ -650,8 +650,12 @@ def op_line(st, o):
         if idx is None:
             return "skipped"
         c = mm.centre_of(idx)
-        if any(abs(a - b) > ci * Fr(3, 8) for a, b, ci in zip(p, c, mm.cell)):
+        # a quarter-cell margin from every cell face - except the faces of the REGION itself, where the
+        # containing cell is unambiguous (first cell / last cell, both inclusive)
+        if any(abs(a - b) > ci * Fr(3, 8) and a != lo and a != hi for a, b, ci, lo, hi in zip(p, c, mm.cell, mm.region.pmin, mm.region.pmax)):
             return "skipped"
+        if any(a == lo or a == hi for a, lo, hi in zip(p, mm.region.pmin, mm.region.pmax)):
+            st.stats.probe("line_point_on_region_boundary")
         idxs.append(idx)
     a1 = p1[0] if mm.region.ndim == 1 and o.get("scalar") else list(p1)
     a2 = p2[0] if mm.region.ndim == 1 and o.get("scalar") else list(p2)
